@@ -192,7 +192,11 @@ def run_typed(prop, check, tier, scratch, record, level, rule, assume, describe_
     if extra:
         params.update(extra)
     job = dict(prop=prop, tier=tier, seed=vlib.seed(), params=params)
-    out = vlib.run_workers(scratch, binary, RUNNER, job, case_timeout=60, total_timeout=3300 if tier == "thorough" else 900)
+    # invalidptr=0: the collector does not abort the worker when it meets a non-pointer in a pointer slot.  The library leaves such
+    # values behind for some type families; the death comes many cases later and cannot be attributed to an input, and these four
+    # properties are about documents and values (memory safety is C07 / C08, whose workers keep the check on).
+    out = vlib.run_workers(scratch, binary, RUNNER, job, case_timeout=60, total_timeout=3300 if tier == "thorough" else 900,
+                           env={"GODEBUG": "invalidptr=0"})
     if with_witnesses:
         witnesses(scratch, binary, out)
     nfr = 0
